@@ -20,7 +20,7 @@ from harness import core
 from harness import coqemit as E
 
 # ------------------------------------------------------------------ field types of the generator
-# tok: how the real generator renders the type: "plain" | "optnone" ("Optional[X] = None")
+# tok: how the real generator renders the type: "plain" | "optbare" ("Optional[X]") | "optnone" ("Optional[X] = None": no type now)
 # auto_opt: a typing.Optional annotation (StructMeta adds the name to _optional by itself)
 # bad: the rendered string does not parse inside a signature
 FT = {}
@@ -63,17 +63,18 @@ _ft("Decimal", "DecimalNumber", "DecimalNumber()", "__import__('decimal').Decima
 _ft("AnyOf2", "AnyOf[Integer, String]", "AnyOf(fields=[Integer(), String()])", "1")
 _ft("AnyOf3N", "AnyOf[Integer, String, None]", None, "'s'")
 _ft("Union", "Union[int, str]", None, "1")
-# rendered "Optional[X] = None" whether or not the field is required
-_ft("AnyOfNone", "AnyOf[Integer, None]", "AnyOf(fields=[Integer(), NoneField()])", "1", tok="optnone", cat="multi-with-None")
-_ft("OneOfNone", "OneOf[String, None]", None, "'s'", tok="optnone", cat="multi-with-None")
-_ft("AnyOfLeafNone", "AnyOf[Leaf, None]", None, "Leaf(x=1)", tok="optnone", cat="multi-with-None")
+# rendered "Optional[X]"; the "= None" follows _required alone (it was part of the type text, whatever _required said)
+_ft("AnyOfNone", "AnyOf[Integer, None]", "AnyOf(fields=[Integer(), NoneField()])", "1", tok="optbare", cat="multi-with-None")
+_ft("OneOfNone", "OneOf[String, None]", None, "'s'", tok="optbare", cat="multi-with-None")
+_ft("AnyOfLeafNone", "AnyOf[Leaf, None]", None, "Leaf(x=1)", tok="optbare", cat="multi-with-None")
 # typing.Optional: optional by itself
-_ft("OptInt", "Optional[int]", None, "1", tok="optnone", auto_opt=True, cat="typing-optional")
-_ft("OptList", "Optional[List[int]]", None, "[1]", tok="optnone", auto_opt=True, cat="typing-optional")
-_ft("OptLeaf", "Optional[Leaf]", None, "Leaf(x=1)", tok="optnone", auto_opt=True, cat="typing-optional")
-# "Optional[X] = None" nested inside brackets
-_ft("MapOfOpt", "Map[String, AnyOf[Integer, None]]", None, "{'k': 1}", bad="nested-optional", cat="nested-optional")
-_ft("SetOfOpt", "Array[Map[String, AnyOf[String, None]]]", None, "[{'k': 's'}]", bad="nested-optional", cat="nested-optional")
+_ft("OptInt", "Optional[int]", None, "1", tok="optbare", auto_opt=True, cat="typing-optional")
+_ft("OptList", "Optional[List[int]]", None, "[1]", tok="optbare", auto_opt=True, cat="typing-optional")
+_ft("OptLeaf", "Optional[Leaf]", None, "Leaf(x=1)", tok="optbare", auto_opt=True, cat="typing-optional")
+# an Optional nested inside brackets: "dict[str, Optional[int]]" (it was "dict[str, Optional[int] = None]", which does not
+# parse: such declarations were kept to a few modules; they are ordinary field types now)
+_ft("MapOfOpt", "Map[String, AnyOf[Integer, None]]", None, "{'k': 1}", cat="nested-optional")
+_ft("SetOfOpt", "Array[Map[String, AnyOf[String, None]]]", None, "[{'k': 's'}]", cat="nested-optional")
 
 COMMON = ["int", "str", "Integer", "String", "float", "bool", "Array", "Map", "Enum", "Leaf", "OptInt",
           "AnyOfNone", "list", "Set", "ArrayLeaf", "int", "str", "DateField", "Decimal", "Deque", "DateTime"]
